@@ -18,7 +18,9 @@ structure RMPred where
   throw : ∀ {α : Type} (e : RenderError), P (RM.throw e : RM α)
   outOfFuel : ∀ {α : Type}, P (RM.outOfFuel : RM α)
   write : ∀ s, P (RM.write s)
-  mapErr : ∀ {α : Type} (x : RM α) (f : RenderError → RenderError), P x → P (RM.mapErr x f)
+  /-- `map_err` with a function that keeps the error's reason (the two uses in the renderer add a position
+      and a template name) -/
+  mapErr : ∀ {α : Type} (x : RM α) (f : RenderError → RenderError), (∀ e, (f e).reason = e.reason) → P x → P (RM.mapErr x f)
   captured : ∀ {α : Type} (x : RM α), P x → P (RM.captured x)
   cleanup : ∀ (x : RM Unit) (c : RC → RC), P x → P (RM.withCleanup x c)
   -- leaves whose bodies mention `panic` (shown unreachable per predicate)
@@ -120,6 +122,8 @@ macro "rm_auto" R:ident ih:ident : tactic => `(tactic|
     | exact ($ih).renderElems _ _ _
     | exact ($ih).renderTemplate _
     | exact ($ih).expandPartial _
+    | exact decorateRender_reason _ _
+    | exact decorateEval_reason _ _
     | apply ($R).mapErr
     | apply ($R).captured
     | apply ($R).cleanup
